@@ -268,5 +268,29 @@ func (s *San) CurrentValue(h *ssa.Phi, b *ssa.BasicBlock) ssa.Value {
 			return nil
 		}
 	}
-	return vals[0]
+	// the value on the back edge may be a merge that lies after b (the join behind an inlined helper): what the
+	// variable holds at b is then the merge's operand for the edges that b can reach
+	cur := vals[0]
+	for n := 0; n < 8; n++ {
+		ph, ok := cur.(*ssa.Phi)
+		if !ok || ph.Block() == s.Header || ph.Block().Dominates(b) {
+			break
+		}
+		var sub []ssa.Value
+		for i, p := range ph.Block().Preds {
+			if seen[p] {
+				sub = append(sub, ph.Edges[i])
+			}
+		}
+		if len(sub) == 0 {
+			return nil
+		}
+		for _, v := range sub[1:] {
+			if v != sub[0] {
+				return nil
+			}
+		}
+		cur = sub[0]
+	}
+	return cur
 }
